@@ -145,8 +145,15 @@ impl<'a, H: HashChain> InMemoryHssSignature<'a, H> {
     pub fn new(data: &'a [u8]) -> Option<Self> {
         let mut index = 0;
 
+        if data.len() < 4 {
+            return None;
+        }
         let level =
             u32::from_be_bytes(read_and_advance(data, 4, &mut index).try_into().unwrap()) as usize;
+        // At most L - 1 signed public keys fit (and are allowed by RFC 8554, L <= 8)
+        if level >= MAX_ALLOWED_HSS_LEVELS {
+            return None;
+        }
 
         let mut signed_public_keys = ArrayVec::new();
 
@@ -157,6 +164,10 @@ impl<'a, H: HashChain> InMemoryHssSignature<'a, H> {
         }
 
         let signature = InMemoryLmsSignature::<'a, H>::new(&data[index..])?;
+        // The signature must end exactly here (RFC 8554, Algorithm 6a)
+        if index + signature.len() != data.len() {
+            return None;
+        }
 
         Some(Self {
             level,
